@@ -177,6 +177,7 @@ class Ctx:
             'known_findings_reported': [v['key'] for v in self.violations if v.get('known')],
             'violations_reported': [{'key': v['key'], 'kind': v['kind'], 'at': v.get('at'), 'msg': v['msg']} for v in self.violations if not v.get('known')],
             'notes': self.notes,
+            'new_helpers_inlined': {role: getattr(c, 'inlined_helpers', {}) for role, c in self.crates.items() if getattr(c, 'inlined_helpers', {})},
             'type_aliases_applied': {role: getattr(c, 'type_aliases', {}) for role, c in self.crates.items() if getattr(c, 'type_aliases', {})},
             'function_aliases_applied': {role: getattr(c, 'fn_aliases', {}) for role, c in self.crates.items() if getattr(c, 'fn_aliases', {})},
             'field_aliases_applied': {role: getattr(c, 'field_aliases', {}) for role, c in self.crates.items() if getattr(c, 'field_aliases', {})},
